@@ -30,6 +30,73 @@ def hand_bases():
         P(from_("t"), derive(item(bin_("*", b, lit(2)), "y")), select(item("y"), item("a"), item("k")), exclude("k")),
     ]
 
+def open_family(rep, d, tier):
+    """C06 where the language machine has no meaning to offer (open schemas, stars in select lists): the law on observed
+    results (spec/RewriteLaw.tla).  prefix x continuation, and the same program with the prefix named by let / into / a
+    module member or an identity step inserted; the variant must return the base's relation on every database instance."""
+    tcols = "k, a, b"
+    prefixes = [
+        ("from t | select {c = a + 1, t.*}", True, "t"), ("from t | derive {c = a + 1} | select {c, t.*}", True, "t"),
+        ("from t | derive {c = a + 1}", True, "t"), ("from t | select {t.*, c = a + 1}", True, "t"),
+        ("from t | join u (==k) | select {t.*, u.c}", True, "j"), ("from t | join u (==k) | select {u.c, t.*}", True, "j"),
+        ("from t | join side:left u (==k) | select {c2 = u.c ?? 0, t.*}", False, "j"),
+        ("from t | filter a > 0 | sort {-k}", False, "t"), ("from t | select !{b}", False, "x"), ("from t | derive {c = a + 1} | select !{a}", True, "x"),
+        ("from t | select {k2 = k * 2, t.*} | derive {s = k2 + a}", False, "t"),
+        ("from t | group k (aggregate {n = count this, m = max b})", False, "g"),
+        ("from t | select {t.*} | derive {c = b ?? 0}", True, "t"),
+    ]
+    conts = [("", None), ("filter c > 1", "c"), ("filter k > 1", None), ("derive {d = k + 1}", None), ("select {k}", None),
+             ("group k (aggregate {cnt = count this})", None), ("sort {k, a, b} | take 2", "t-only"), ("select !{k}", None), ("sort {-k}", None)]
+    srcs = []
+    n = 0
+    for pre, has_c, kind in prefixes:
+        for cont, need in conts:
+            if need == "c" and not has_c:
+                continue
+            if need == "t-only" and kind != "t":
+                continue
+            if kind == "g" and ("a" in cont.replace("aggregate", "") and "take" in cont):
+                continue
+            tail = (" | " + cont) if cont else ""
+            base = f"o{n}"; n += 1
+            srcs.append({"id": base, "src": pre + tail})
+            srcs.append({"id": base + "-let", "base": base, "src": f"let x = ({pre})\nfrom x{tail}"})
+            srcs.append({"id": base + "-into", "base": base, "src": f"{pre}\ninto x\nfrom x{tail}"})
+            srcs.append({"id": base + "-mod", "base": base, "src": f"module m {{\n  let x = ({pre})\n}}\nfrom m.x{tail}"})
+            srcs.append({"id": base + "-id", "base": base, "src": f"{pre} | filter true{tail}"})
+            if cont.startswith("filter") and "&&" not in cont:
+                srcs.append({"id": base + "-split", "base": base, "src": f"{pre} | filter true && ({cont[7:]})"})
+    # binding demonstration: a variant that is not a refactoring of its base must be rejected
+    srcs.append({"id": "self-base", "src": "from t | select {c = a + 1, t.*}"})
+    srcs.append({"id": "self-cols", "base": "self-base", "src": "from t | select {c = a + 1, c2 = a, t.*}"})
+    srcs.append({"id": "self-rows", "base": "self-base", "src": "from t | select {c = a + 2, t.*}"})
+    ip = os.path.join(d, "open.src.ndjson"); op = os.path.join(d, "open.res.ndjson"); write_ndjson(ip, srcs)
+    pv(["runsrc", os.path.join(ROOT, "corpus", "dbs_quick.json"), ip, op])
+    out, info = tlc("RewriteLaw", "RewriteLaw.cfg", env={"TRACE": op}, workers=1, deque=True)
+    tr = tuples(out, "TRACE")
+    if not info["no_error"] or not tr or tr[0][1] != tr[0][2]:
+        raise ToolError("RewriteLaw did not consume the trace: " + info.get("error_text", out[-1200:])[:1500])
+    res = {r["id"]: r for r in read_ndjson(op) if r.get("ev") == "Result"}
+    src_of = {s_["id"]: s_["src"] for s_ in srcs}
+    got_self = {}
+    nrej = 0
+    for t in tuples(out, "REJECT"):
+        vid, bid, verdict = t[1], t[2], t[3]
+        if vid.startswith("self-"):
+            got_self[vid] = verdict
+            continue
+        nrej += 1
+        rep.violation({"property": "C06", "kind": "open-" + verdict, "base": src_of[bid], "variant": src_of[vid], "base_sql": res[bid].get("sql"), "variant_sql": res[vid].get("sql"),
+                       "base_columns": res[bid].get("names"), "variant_columns": res[vid].get("names"), "variant_detail": res[vid].get("detail")},
+                      {"what": "open-" + verdict, "src": src_of[vid], "base_src": src_of[bid], "sql": res[vid].get("sql") or "", "detail": res[vid].get("detail") or "",
+                       "rewrite": vid.rsplit("-", 1)[-1]})
+    if got_self != {"self-cols": "columns", "self-rows": "rows"}:
+        raise ToolError(f"C06 open-family selftest: wrong variants not rejected as expected: {got_self}")
+    c = tuples(out, "COUNTS")[-1]
+    ran = sum(1 for r in res.values() if r["outcome"] == "rows")
+    return {"open_schema_family": {"bases": c[1] - 1, "variants": c[2] - 2, "executed": ran, "rejections": nrej,
+                                   "explanation": "open-schema programs with stars in select lists (prefix x continuation) and the same program with the prefix named by let / into / a module member, an identity step inserted or a filter split, executed on SQLite per database instance; spec/RewriteLaw.tla requires the variant to return the base's columns (up to order when distinct) and bag of rows"}}, c[2]
+
 def check(tier):
     rep = Report("C06", tier)
     d = workdir("C06")
@@ -111,8 +178,9 @@ def check(tier):
     for p in progs[:2] + progs[-2:]:
         sd = res["side"].get(p["id"], {})
         samples.append({"prql": sd.get("src", "").split("}\n", 1)[-1], "sql": sd.get("sql")})
-    cov = {"states": states, "transitions": transitions,
-           "traces_validated_against_impl": res0["accepted"] + res0["rejected"] + res["accepted"] + res["rejected"], "samples": samples,
+    ocov, on = open_family(rep, d, tier)
+    cov = {**ocov, "states": states, "transitions": transitions,
+           "traces_validated_against_impl": res0["accepted"] + res0["rejected"] + res["accepted"] + res["rejected"] + on, "samples": samples,
            "exhaustive": True,
            "explanation": f"RewriteMC: {len(good_bases)} base programs x every applicable rewrite (name a prefix with let / into / module member, extract a function: positional, piped, named-with-default; split a conjunctive filter; insert filter true / select-all / repeated sort; move a declaration into a module), depth {depth} (depth 2 on the hand-written bases); TLC checked Denote(rewritten) = Denote(base) on every instance for all {states} states; the {len(progs)} rewritten programs were compiled, executed and validated by PrqlTrace against that denotation",
            "bases": len(good_bases), "rewritten_programs": len(progs), "declaration_kinds": kinds,
